@@ -28,7 +28,10 @@ import (
 //   * a returned ring is usable: every section has exactly rf pairwise distinct replicas inside
 //     the endpoint list, GetN(n < rf) answers without error;
 //   * the outcome is the one predicted from the zone sizes alone: toofew iff rf > #endpoints,
-//     otherwise ok iff layout.canBalance(rf) (classes balanceable-rejected / unbalanceable-accepted).
+//     otherwise ok iff layout.canBalance(rf) (classes balanceable-rejected / unbalanceable-accepted);
+//   * o.load2: after the second load and the Close of the first hashring the cache metrics of every
+//     shuffle sharded hashring are still registered (metrics-lost-after-reload), and none is left when
+//     both are closed (metrics-leaked).
 
 func init() { register("C19", genC19, execC19) }
 
@@ -194,9 +197,17 @@ func execC19(v *vctx, tok []string) string {
 				return "reload-panic"
 			}
 			v.Count("reload:" + strings.SplitN(class2, ":", 2)[0])
+			// Handler.Hashring closes the old hashring once the new one is installed: the metrics of
+			// the shuffle sharded hashrings must survive that, and disappear when everything is closed
 			h.Close()
 			if h2 != nil {
+				if got := shardMetricNames(reg); len(got) != len(names) {
+					v.Violation("metrics-lost-after-reload", fmt.Sprintf("after the update and closing the old hashring the registry has shuffle shard metrics for %v, the configuration has %d shuffle sharded hashring name(s)", got, len(names)))
+				}
 				h2.Close()
+			}
+			if got := shardMetricNames(reg); len(got) != 0 {
+				v.Violation("metrics-leaked", fmt.Sprintf("everything closed, shuffle shard metrics still registered for %v", got))
 			}
 			return fmt.Sprintf("ok:%d", len(h.Nodes()))
 		}
@@ -204,6 +215,28 @@ func execC19(v *vctx, tok []string) string {
 		return fmt.Sprintf("ok:%d", len(h.Nodes()))
 	}
 	return "bad-op"
+}
+
+// shardMetricNames lists the hashring label values for which shuffle shard cache metrics are registered.
+func shardMetricNames(reg *prometheus.Registry) []string {
+	mfs, err := reg.Gather()
+	if err != nil {
+		return []string{"gather-error:" + err.Error()}
+	}
+	seen := map[string]bool{}
+	for _, mf := range mfs {
+		if mf.GetName() != "thanos_shuffle_shard_cache_max_items" {
+			continue
+		}
+		for _, m := range mf.Metric {
+			for _, l := range m.Label {
+				if l.GetName() == "hashring" {
+					seen[l.GetValue()] = true
+				}
+			}
+		}
+	}
+	return hlib.SortedKeys(seen)
 }
 
 type cfgEndpoint struct {
